@@ -1,8 +1,4 @@
-import Pun.Model.Proto
+import Pun.Drv.PBoxCommon
 namespace Pun.Drv.C03
-open Pun
-
-def handle : List String → String
-  | _ => "bad-op"
-
+def handle : List String → String := Pun.Drv.PBoxCommon.handle
 end Pun.Drv.C03
